@@ -60,11 +60,23 @@ def handleLine (line : String) : String :=
     | _ => "UNSUPPORTED malformed-lhs"
   | _ => "UNSUPPORTED malformed-line"
 
-partial def loop (hin hout : IO.FS.Stream) : IO Unit := do
+/-- read up to `n` lines; `eof = true` when the input is exhausted -/
+partial def readBatch (hin : IO.FS.Stream) (n : Nat) (acc : Array String) : IO (Array String × Bool) := do
+  if acc.size ≥ n then return (acc, false)
   let line ← hin.getLine
-  if line.isEmpty then return ()
-  hout.putStrLn (handleLine line)
-  loop hin hout
+  if line.isEmpty then return (acc, true)
+  readBatch hin n (acc.push line)
+
+/-- Lines are independent (every handler is a pure function of its line), so a batch is evaluated
+by the task pool and the verdicts are printed in input order: the output is byte-identical to the
+sequential loop. `LEAN_NUM_THREADS` bounds the pool. -/
+partial def loop (hin hout : IO.FS.Stream) : IO Unit := do
+  let (batch, eof) ← readBatch hin 64 #[]
+  let tasks := batch.map fun line => Task.spawn fun _ => handleLine line
+  for t in tasks do
+    hout.putStrLn t.get
+  hout.flush
+  if eof then return () else loop hin hout
 
 def main : IO Unit := do
   let hin ← IO.getStdin
